@@ -12,6 +12,7 @@ It is intended to be just enough to test without a real device
 from __future__ import annotations
 
 import argparse
+import json
 import logging
 import re
 import socketserver
@@ -48,10 +49,17 @@ class YncaDataStore:
         command = None
         with open(filename) as file:
             for line in file:
+                # Strip to be able to use diagnotics output directly
                 line = line.strip()
-                line = line.rstrip(
-                    '",'
-                )  # Strip to be able to use diagnotics output directly
+                stripped = line.rstrip(",")
+                if len(stripped) >= 2 and stripped.startswith('"') and stripped.endswith('"'):
+                    # A JSON string, decode it so escaped characters (e.g. \u00df) become the real ones
+                    try:
+                        line = json.loads(stripped)
+                    except ValueError:
+                        line = stripped.rstrip('",')
+                else:
+                    line = line.rstrip('",')
 
                 # Error values are stored based on command sent on previous line
                 if command and (RESTRICTED in line or UNDEFINED in line):
